@@ -252,3 +252,28 @@ class UriEq(Contract):
 
 
 R.inline("Pyro5.core.URI.__getstate__")
+
+
+@R.contract
+class UriSetState(Contract):
+    """URI.__setstate__(state): the five components are taken over exactly as given - in particular the port, whatever its value (0 included).
+    It is the path behind URI(uri) copies, copy.copy and every serializer's re-creation of a URI (C19: a URI that travels is equal to the original)."""
+    name = "Pyro5.core.URI.__setstate__"
+    props = ("C19",)
+    raises = {}
+    no_join = True
+
+    def setup(self, E, st):
+        self.u = st.new_obj("Pyro5.core.URI")
+        self.parts = [VStr(z3.Const("s_protocol", StrS)), VStr(z3.Const("s_object", StrS)), opt_str("s_sockname"), opt_str("s_host"), opt_int("s_port")]
+        return {"self": self.u, "state": VTuple(self.parts)}
+
+    def ensures(self, E, old, st, a, result):
+        post = []
+        for f, v in zip(("protocol", "object", "sockname", "host", "port"), self.parts):
+            got = st.get(self.u, f) if st.has(self.u, f) else None
+            post.append(("%s is the given value, unchanged" % f, E.eq(got, v, st) if got is not None else z3.BoolVal(False)))
+            if isinstance(v, VOpt):
+                post.append(("%s: None stays None and a value stays a value (0 is a port)" % f,
+                             (got.isnone == v.isnone) if isinstance(got, VOpt) else z3.BoolVal(isinstance(got, VNone)) == v.isnone))
+        return post
